@@ -13,7 +13,15 @@ import (
 	"golang.org/x/tools/go/ssa/ssautil"
 )
 
-const repoDir = "/repo"
+// repoDir is the tree under test. GOSYM_REPO points the engine at a scratch worktree instead (used only
+// by tools/try_seed.sh to try a seeded change without touching /repo while other checks are running; the
+// registered commands never set it). GOSYM_EVIDENCE likewise redirects the evidence file.
+var repoDir = func() string {
+	if d := os.Getenv("GOSYM_REPO"); d != "" {
+		return d
+	}
+	return "/repo"
+}()
 const modPath = "trpc.group/trpc-go/trpc-mcp-go"
 
 type Program struct {
